@@ -178,7 +178,7 @@ func (u *Unit) mapWrite(fc *frameCtx, st *State, pc *Term, mt *types.Map, m, k *
 func (u *Unit) checkMapWrite(fc *frameCtx, pc *Term, m *Term) {
 	c := u.c
 	if fc.spec {
-		panic(unsupported("map write inside a specification / pure context"))
+		return
 	}
 	allowed := func(fr *FrameSpec, bound *Term) *Term {
 		if fr == nil || fr.Any {
